@@ -21,7 +21,7 @@ LEVEL = "exploration"
 TECHNIQUE = ("runtime monitoring: contracts + offline checker over recorded move results under seeded and hostile "
              "RNG tapes (recording shim substituted for the library's random source)")
 RULE = ("sequences of all classes incl. length 1-3, one charge class, no neutrals, uncharged x frozen sets {empty, {0}, "
-        "singletons, prefixes, all charged, everything, random; as set/list/tuple where the API takes them} x moves "
+        "singletons, prefixes, all charged, everything, random; as set/list/tuple/numpy index array where the API takes them} x moves "
         "{get_shuffled_sequence, get_permutant, swapRes, swapRandChargeRes, full_shuffle, permute_block_swap, "
         "permute_cluster_charges} x chains of 1-30 mixed moves x seeded tapes, a share with a hostile forced prefix; "
         "parents with delta-max cached or not; distinct = distinct (parent, move, frozen, result); non-trivial = result "
@@ -38,13 +38,14 @@ REQUIRED = {"all": ["move:full_shuffle", "move:swapRes", "move:swapRandChargeRes
                     "move:permute_cluster_charges", "move:get_shuffled_sequence", "move:get_permutant", "chains",
                     "hostile_tapes", "parent_dmax_cached", "parent_dmax_not_cached", "frozen_nonempty", "frozen_only_zero",
                     "frozen_all_charged", "uncharged_parents", "returned_parent_itself", "carried_dmax_checked",
-                    "ancestors_checked"]}
+                    "ancestors_checked", "frozen_as_numpy_array"]}
 NCASE = {"quick": 700, "thorough": 8000}
 DRAW_BUDGET = 20000
 BACKEND_MOVES = ["full_shuffle", "swapRes", "swapRandChargeRes", "permute_block_swap", "permute_cluster_charges"]
 MUST_SUCCEED = {"full_shuffle", "swapRes", "swapRandChargeRes", "get_shuffled_sequence", "get_permutant"}
 SPECIAL = ["EKEKGG", "EKEKGGGEKEKRRDD", "K", "KE", "GKG", "GGGGGG", "KKKKKK", "EEEEKKKK", "WGGSK", "KKGG", "EKGGGGGGGGGGGGGGGGGGGG",
-           "KRKRGSGSDEDE", "GSGSGSKGSGSGS", "EKEKEKEKEKEKEKEKEKEK"]
+           "KRKRGSGSDEDE", "GSGSGSKGSGSGS", "EKEKEKEKEKEKEKEKEKEK", "EGKKKEE", "EKKKKKKEE", "KKGGGGGK", "EKKGGKE", "EGGGGGE",
+           "KGEEEEGGK", "EEEEEEEEEEEEEEEEEEKG"]
 
 
 def cases(tier, seed):
@@ -162,7 +163,9 @@ def judge(case, rep, S):
             try:
                 if style == "shuffle":
                     psnap = snap(parent)
-                    fz = rng.choice([set(frozen), list(frozen), tuple(frozen)])
+                    fz = rng.choice([set(frozen), list(frozen), tuple(frozen), S["np"].array(frozen, dtype=int)])
+                    if not isinstance(fz, (set, list, tuple)):
+                        rep.cnt("frozen_as_numpy_array")
                     res = api.get_shuffled_sequence(fz) if frozen or rng.random() < 0.5 else api.get_shuffled_sequence()
                     move = "get_shuffled_sequence"
                     fr = frozen
@@ -195,7 +198,7 @@ def judge(case, rep, S):
         # ---- backend chain
         cur = Sequence(seq)
         if rng.random() < 0.5:
-            cur.deltaMax()
+            cur.kappa() if rng.random() < 0.5 else cur.deltaMax()
             rep.cnt("parent_dmax_cached")
         else:
             rep.cnt("parent_dmax_not_cached")
@@ -216,7 +219,7 @@ def judge(case, rep, S):
                     fr = frozen
                     ctx = "(frozen %r, step %d of a chain from %s)" % (frozen, step, seq)
                 else:
-                    fz = rng.choice([set(frozen), list(frozen), tuple(frozen)]) if move == "full_shuffle" else set(frozen)
+                    fz = rng.choice([set(frozen), list(frozen), tuple(frozen), S["np"].array(frozen, dtype=int)]) if move == "full_shuffle" else set(frozen)
                     child = getattr(parent, move)(fz) if frozen or rng.random() < 0.5 else getattr(parent, move)()
                     fr = frozen
                     ctx = "(frozen %r, step %d of a chain from %s)" % (frozen, step, seq)
